@@ -61,6 +61,8 @@ def execute(sc):
         items = L.out_items(res.rec)
         A = common.Viol()     # attribution problems are C02's; here they only limit what can be judged
         py2inc = oracles.check_attribution(st, tr, A)
+        if A.counters.get('probe_stray_message_on_a_never_created_id'):
+            V.bump('probe_stray_message_on_a_never_created_id', A.counters['probe_stray_message_on_a_never_created_id'])
         if A.list:
             V.bump('attribution_broken_not_judged_here')
         oracles.check_lifetimes(st, tr, V, py2inc, items=items)
